@@ -6,7 +6,11 @@ releases (free, or the block abandoned by a moving realloc) during a high-level 
     i-th released block must be byte-identical in both (a wiped block depends only on addresses and the wipe
     counter).  A differing run of octets is excused only if it literally occurs in that twin's public outputs / inputs.
  2. needle scan: no released block contains an 8-octet window of the secret or of its expanded form.
-Exits: success, failed authentication, and every allocation-failure exit (the k-th allocation fails, k = 1, 2, ...).
+Exits: success, failed authentication, error exits reached by spoiling one input at a time, and every
+allocation-failure exit (the k-th allocation fails, k = 1, 2, ...).
+Blocks the call obtained and still holds when it returns (an exit that forgot blobClose) are inspected the same
+way: the secret stays in the heap although the function is done with it.
+The bake Run drivers are run against a scripted peer (transcript recorded from an honest run of both parties).
 """
 from .. import wa as walib
 from ..core import Harness
@@ -14,6 +18,7 @@ from . import secretcalls as sc
 
 LEVEL = "exploration"
 ERR_OK = 0
+HOW = {0: "free", 1: "realloc", 2: "never"}
 
 
 def windows(b, w=8):
@@ -54,17 +59,22 @@ def judge(ctx, call, res, fail_at, reported, desc):
         for nd in v.needles:
             needles.update(windows(nd))
         pubs = b"\x00".join(v.pub + res[k]["outs"])
-        for i, (how, data) in enumerate(res[k]["info"]["snaps"]):
+        for i, (how, data) in enumerate(res[k]["info"]["snaps"] + res[k]["info"].get("leaked", [])):
             for wnd in windows(data):
                 if wnd in needles and wnd not in pubs and len(set(wnd)) > 2:
-                    key = "%s:secret-in-released-block:%s:%s" % (name.split(":")[0], "realloc" if how else "free", exitc)
+                    key = "%s:secret-in-released-block:%s:%s" % (name.split(":")[0], HOW[how], exitc) if how < 2 else \
+                          "%s:secret-left-in-unreleased-block:%s" % (name.split(":")[0], exitc)
                     if key not in reported:
                         reported.add(key)
-                        ctx.violation(key, "a block released by %s (%s exit) still contains the caller's secret" % (name, exitc),
+                        ctx.violation(key, "a block %s %s (%s exit) still contains the caller's secret" % (
+                            "released by" if how < 2 else "obtained and never released by", name, exitc),
                                       dict(desc, block_index=i, block_size=len(data), window=wnd, how=how))
                     break
     # twin differential
-    sa, sb = res[0]["info"]["snaps"], res[1]["info"]["snaps"]
+    la, lb = res[0]["info"].get("leaked", []), res[1]["info"].get("leaked", [])
+    if la or lb:
+        ctx.classes["unreleased-block-at-return"] += len(la)
+    sa, sb = res[0]["info"]["snaps"] + la, res[1]["info"]["snaps"] + lb
     if len(sa) != len(sb) or any(len(x[1]) != len(y[1]) for x, y in zip(sa, sb)):
         ctx.classes["allocation-pattern-differs-between-twins"] += 1
         return
@@ -78,11 +88,12 @@ def judge(ctx, call, res, fail_at, reported, desc):
                 continue
             if da[s:e] in pubA and db[s:e] in pubB:
                 continue
-            key = "%s:released-block-depends-on-secret:%s:%s" % (name.split(":")[0], "realloc" if ha else "free", exitc)
+            key = "%s:released-block-depends-on-secret:%s:%s" % (name.split(":")[0], HOW[ha], exitc) if ha < 2 else \
+                  "%s:unreleased-block-depends-on-secret:%s" % (name.split(":")[0], exitc)
             if key not in reported:
                 reported.add(key)
-                ctx.violation(key, "a block released by %s (%s exit) differs between two runs that differ only in the secret: "
-                                   "it was not wiped" % (name, exitc),
+                ctx.violation(key, "a block %s %s (%s exit) differs between two runs that differ only in the secret: "
+                                   "it was not wiped" % ("released by" if ha < 2 else "obtained and never released by", name, exitc),
                               dict(desc, block_index=i, block_size=len(da), offset=s, length=e - s, a=da[s:e][:64], b=db[s:e][:64]))
             break
 
